@@ -13,16 +13,16 @@ import (
 // Scn is a small directed scenario world: a sender A that holds every token kind and every role,
 // destinations of every kind on the same and on another shard.
 type Scn struct {
-	U      *gen.Universe
-	M      *Mon
-	R      *harness.Rand
-	A      []byte // sender: user on shard 0, holds F1, F2, SFT#1 (qty 10), NFT#1, all roles for SFT/NFT, mint/burn for F1
-	Same   []byte // user on A's shard
-	Other  []byte // user on another shard (== Same when there is one shard)
-	KSame  []byte // payable contract on A's shard
-	KOther []byte // payable contract on another shard
-	NSame  []byte // non-payable contract on A's shard
-	NOther []byte // non-payable contract on another shard
+	U                *gen.Universe
+	M                *Mon
+	R                *harness.Rand
+	A                []byte // sender: user on shard 0, holds F1, F2, SFT#1 (qty 10), NFT#1, all roles for SFT/NFT, mint/burn for F1
+	Same             []byte // user on A's shard
+	Other            []byte // user on another shard (== Same when there is one shard)
+	KSame            []byte // payable contract on A's shard
+	KOther           []byte // payable contract on another shard
+	NSame            []byte // non-payable contract on A's shard
+	NOther           []byte // non-payable contract on another shard
 	F1, F2, SFT, NFT []byte
 }
 
